@@ -2,6 +2,7 @@
 import ast
 
 from ..core.db import AnalysisError, norm_stmt, walk_no_nested
+from ..core.pattern import match_all, find
 
 S = 'prysm.segmented.'
 
@@ -113,25 +114,28 @@ def confine(run, db, qual, zipped, center=None):
     win, mask, base, c = tnames[:4]
     body = lp.body
     idx = {}
-    for i, st in enumerate(body):
-        t = ast.unparse(st).replace(' ', '')
-        if t == 'tile=sum_of_2d_modes(%s,%s)' % (base, c):
-            idx['tile'] = i
-        if t == 'tile*=%s' % mask or t == 'tile=tile*%s' % mask:
-            idx['mask'] = i
-        if t == 'out[%s]+=tile' % win:
-            idx['acc'] = i
-        if t in ('out[%s]+=tile*%s' % (win, mask), 'out[%s]+=(tile*%s)' % (win, mask)):
-            idx['mask'] = i
-            idx['acc'] = i
+    OUT = TILE = None
+    for pats in (['V_tile = sum_of_2d_modes(%s, %s)' % (base, c), 'V_tile *= %s' % mask, 'V_out[%s] += V_tile' % win],
+                 ['V_tile = sum_of_2d_modes(%s, %s)' % (base, c), 'V_tile = V_tile * %s' % mask, 'V_out[%s] += V_tile' % win],
+                 ['V_tile = sum_of_2d_modes(%s, %s)' % (base, c), 'V_out[%s] += V_tile * %s' % (win, mask)]):
+        bm = match_all(body, pats, ordered=True)
+        if bm is not None:
+            OUT, TILE = bm['V_out'], bm['V_tile']
+            nodes = bm['@nodes']
+            idx = {'tile': body.index(nodes[0]), 'mask': body.index(nodes[1]), 'acc': body.index(nodes[-1])}
+            break
     ok = 'tile' in idx and 'mask' in idx and 'acc' in idx and idx['tile'] < idx['acc'] and idx['tile'] <= idx['mask'] <= idx['acc']
     run.check(ok, 'C18.confine', fi.qual, 'mask before accumulate', "the tile is multiplied by the segment's own mask before it is added into the segment's own window",
               'compose_opd does not multiply the tile by the zipped mask before `out[win] += tile` (statements: %s)' % [ast.unparse(s) for s in body], fi.loc(lp))
-    others = [st for st in body if isinstance(st, (ast.Assign, ast.AugAssign)) and 'out' in ast.unparse(st.targets[0] if isinstance(st, ast.Assign) else st.target) and body.index(st) != idx.get('acc')]
-    run.check(not others, 'C18.confine', fi.qual, 'single accumulation', 'out is written once per segment', 'out is written more than once per segment', fi.loc(lp))
+    def _base_name(st):
+        t = st.targets[0] if isinstance(st, ast.Assign) else st.target
+        b_ = t.value if isinstance(t, ast.Subscript) else t
+        return b_.id if isinstance(b_, ast.Name) else None
+    others = [st for st in body if isinstance(st, (ast.Assign, ast.AugAssign)) and OUT is not None and _base_name(st) == OUT and body.index(st) != idx.get('acc')]
+    run.check(not others, 'C18.confine', fi.qual, 'single accumulation', 'the output is written once per segment', 'the output is written more than once per segment', fi.loc(lp))
     if center:
-        src = ast.unparse(fi.node).replace(' ', '')
-        run.check(center.replace(' ', '') in src, 'C18.confine', fi.qual, 'centre segment', 'the centre tile is masked by the centre mask in the centre window', 'centre segment composition changed', fi.loc())
+        okc = OUT is not None and (match_all(fi.node, ['%s[self.center_window] += V_t * self.center_mask' % OUT, 'V_t = sum_of_2d_modes(self.opd_bases[0], center_coefs)']) is not None)
+        run.check(okc, 'C18.confine', fi.qual, 'centre segment', 'the centre tile is masked by the centre mask and ADDED into the centre window', 'centre segment composition changed', fi.loc())
 
 
 def separable_rules(run, db):
@@ -161,9 +165,38 @@ def band_rules(run, db):
     from ..domains.normdom import install_pi
     from ..domains.pred import PredDomain, Pred, eval_pred
     fk = db.func(S + '_composite_keystone_aperture')
-    arcs = [n for n in ast.walk(fk.node) if isinstance(n, ast.Assign) and ast.unparse(n.targets[0]) == 'arc']
+    # the ring band is the mask built from circle()/annulus() of the radial grid inside the ring loop
+    cdefs = {}
+    for n in ast.walk(fk.node):
+        if isinstance(n, ast.Assign) and isinstance(n.targets[0], ast.Name) and isinstance(n.value, ast.Call) and ast.unparse(n.value.func) in ('circle', 'annulus'):
+            cdefs[n.targets[0].id] = n
+    arcs = []
+    for n in ast.walk(fk.node):
+        if isinstance(n, ast.Assign) and isinstance(n.targets[0], ast.Name):
+            v = n.value
+            names = {x.id for x in ast.walk(v) if isinstance(x, ast.Name)}
+            if isinstance(v, ast.BinOp) and len(names & set(cdefs)) >= 2:
+                arcs.append(n)
+            elif isinstance(v, ast.Call) and ast.unparse(v.func) == 'annulus' and n.targets[0].id not in cdefs:
+                arcs.append(n)
+    if not arcs:
+        arcs = [cdefs[k] for k in cdefs if ast.unparse(cdefs[k].value.func) == 'annulus']
     if len(arcs) != 1:
-        raise AnalysisError('keystone aperture: the ring band `arc = ...` was not found')
+        raise AnalysisError('keystone aperture: the ring band (a combination of two circle() masks, or an annulus()) was not found uniquely (%d candidates)' % len(arcs))
+    # its two radii and the radial grid, as the circle()/annulus() calls name them
+    used_ = {x.id for x in ast.walk(arcs[0].value) if isinstance(x, ast.Name)}
+    calls_ = [cdefs[k].value for k in cdefs if k in used_] if isinstance(arcs[0].value, ast.BinOp) else [arcs[0].value]
+    radii, grids = [], set()
+    for c in calls_:
+        if ast.unparse(c.func) == 'circle' and len(c.args) == 2:
+            radii.append(ast.unparse(c.args[0]))
+            grids.add(ast.unparse(c.args[1]))
+        elif ast.unparse(c.func) == 'annulus' and len(c.args) == 3:
+            radii += [ast.unparse(c.args[0]), ast.unparse(c.args[1])]
+            grids.add(ast.unparse(c.args[2]))
+    radii = sorted(set(radii))
+    if len(radii) != 2 or len(grids) != 1:
+        raise AnalysisError('keystone aperture: the ring band does not compare one radial grid with two radii (%s, %s)' % (radii, sorted(grids)))
     defs = {}
     for n in ast.walk(fk.node):
         if isinstance(n, ast.Assign) and isinstance(n.targets[0], ast.Name):
@@ -171,22 +204,25 @@ def band_rules(run, db):
     dom = PredDomain(coords=('r',))
     it = install_pi(Interp(db, dom))
     it._reset_run([])
-    fr = Frame(fk, fk.module, {'inner_radius': dom.sym('inner'), 'outer_radius': dom.sym('outer'), 'rr': dom.sym('r')})
-    # the operands of the band may be named temporaries: bind them first (single definitions only)
-    for nm in sorted({x.id for x in ast.walk(arcs[0].value) if isinstance(x, ast.Name)} - {'inner_radius', 'outer_radius', 'rr'}):
-        ds = defs.get(nm, [])
-        if len(ds) == 1:
-            fr.env[nm] = it.ev(ds[0].value, fr)
-    v = it.ev(arcs[0].value, fr)
-    if not isinstance(v, Pred):
-        raise AnalysisError('keystone aperture: the ring band is not a predicate over the radius: %r' % (v,))
     R = dom.R
     inner, g = Rat(R.atom('inner')), Rat(R.atom('gap'))
-    at_in = eval_pred(v, {'r': inner, 'outer': inner + g}, {'gap', 'inner'})
-    at_out = eval_pred(v, {'r': inner + g, 'outer': inner + g}, {'gap', 'inner'})
-    mid = eval_pred(v, {'r': inner + g / 2, 'outer': inner + g}, {'gap', 'inner'})
-    if at_in is None or at_out is None or mid is None:
-        raise AnalysisError('keystone aperture: could not evaluate the band %s on its boundaries' % v.key())
+    verdicts = []
+    for ra_, rb_ in ((radii[0], radii[1]), (radii[1], radii[0])):
+        fr = Frame(fk, fk.module, {ra_: dom.sym('inner'), rb_: dom.sym('outer'), sorted(grids)[0]: dom.sym('r')})
+        for nm in sorted({x.id for x in ast.walk(arcs[0].value) if isinstance(x, ast.Name)} - {ra_, rb_, sorted(grids)[0]}):
+            ds = defs.get(nm, [])
+            if len(ds) == 1:
+                fr.env[nm] = it.ev(ds[0].value, fr)
+        v = it.ev(arcs[0].value, fr)
+        if not isinstance(v, Pred):
+            raise AnalysisError('keystone aperture: the ring band is not a predicate over the radius: %r' % (v,))
+        at_in = eval_pred(v, {'r': inner, 'outer': inner + g}, {'gap', 'inner'})
+        at_out = eval_pred(v, {'r': inner + g, 'outer': inner + g}, {'gap', 'inner'})
+        mid = eval_pred(v, {'r': inner + g / 2, 'outer': inner + g}, {'gap', 'inner'})
+        if at_in is None or at_out is None or mid is None:
+            raise AnalysisError('keystone aperture: could not evaluate the band %s on its boundaries' % v.key())
+        verdicts.append((mid, at_in, at_out))
+    mid, at_in, at_out = next((vd for vd in verdicts if vd[0]), verdicts[0])
     run.check(mid is True and not (at_in and at_out), 'C18.band', fk.qual, 'ring band', 'the band of a ring contains its interior and at most one of its two boundary radii (half-open)',
               'the ring band `%s` contains BOTH r = inner_radius and r = outer_radius%s: with radial_gap == 0 a sample exactly on the radius shared by two rings belongs to a segment of each ring '
               '(two segments claim one sample)' % (ast.unparse(arcs[0].value), '' if mid else ' / misses its interior'), fk.loc(arcs[0]))
@@ -215,23 +251,28 @@ def ids_rules(run, db):
         raise AnalysisError('hexagonal aperture: ring loop not found')
     ring = rings[0]
     carried = loop_carried(ring)
-    if 'segment_id' not in carried:
-        raise AnalysisError('hexagonal aperture: the id counter is not carried from ring to ring (carried: %s)' % sorted(carried))
-    # ids of the ring: arange(counter + 1, counter + 1 + len(centers)) over the UNFILTERED ring
-    idsdef = [st for st in ring.body if isinstance(st, ast.Assign) and ast.unparse(st.targets[0]) == 'ids']
-    if len(idsdef) != 1 or not (isinstance(idsdef[0].value, ast.Call) and ast.unparse(idsdef[0].value.func).endswith('arange') and len(idsdef[0].value.args) >= 2):
+    # the ring's ids are an arange assigned at the top level of the ring loop; the counter is the name its lower bound is built from
+    idsdef = [st for st in ring.body if isinstance(st, ast.Assign) and isinstance(st.targets[0], ast.Name) and isinstance(st.value, ast.Call) and ast.unparse(st.value.func).endswith('arange') and len(st.value.args) >= 2]
+    if len(idsdef) != 1:
         raise AnalysisError('hexagonal aperture: `ids = arange(lo, hi)` not found in the ring loop')
+    IDS = idsdef[0].targets[0].id
+    lo_names = [x.id for x in ast.walk(idsdef[0].value.args[0]) if isinstance(x, ast.Name)]
+    if len(lo_names) != 1 or lo_names[0] not in carried:
+        raise AnalysisError('hexagonal aperture: the id counter is not carried from ring to ring (carried: %s)' % sorted(carried))
+    SID = lo_names[0]
     lo, hi = [ast.unparse(a).replace(' ', '') for a in idsdef[0].value.args[:2]]
     # which list is counted, and is it still unfiltered at that point?
     cnt = [n for n in ast.walk(idsdef[0].value.args[1]) if isinstance(n, ast.Call) and ast.unparse(n.func) == 'len']
-    okc = lo == 'segment_id+1' and len(cnt) == 1 and hi == 'segment_id+1+len(%s)' % ast.unparse(cnt[0].args[0])
+    okc = lo == '%s+1' % SID and len(cnt) == 1 and hi == '%s+1+len(%s)' % (SID, ast.unparse(cnt[0].args[0]))
     counted = ast.unparse(cnt[0].args[0]) if cnt else '?'
     pos = ring.body.index(idsdef[0])
     defs_before = [st for st in ring.body[:pos] if isinstance(st, ast.Assign) and ast.unparse(st.targets[0]) == counted]
-    unfiltered = len(defs_before) == 1 and 'hexes' in ast.unparse(defs_before[0].value) and 'id_mask' not in ast.unparse(defs_before[0].value) and 'exclude' not in ast.unparse(defs_before[0].value)
+    hexdef = [st.targets[0].id for st in ring.body[:pos] if isinstance(st, ast.Assign) and isinstance(st.targets[0], ast.Name) and isinstance(st.value, ast.Call) and ast.unparse(st.value.func) == 'hex_ring']
+    unfiltered = len(defs_before) == 1 and len(hexdef) == 1 and any(isinstance(x, ast.Name) and x.id == hexdef[0] for x in ast.walk(defs_before[0].value)) \
+        and not any(isinstance(x, ast.Name) and x.id == 'exclude' for x in ast.walk(defs_before[0].value)) and not isinstance(defs_before[0].value, ast.Subscript)
     run.check(okc and unfiltered, 'C18.ids', fh.qual, 'ring ids', 'the ids of a ring are counter+1 .. counter+len(ring), counted over the unfiltered ring (6 i segments)',
               'ring ids are arange(%s, %s) with `%s` %s: the documented numbering (6 i ids per ring, exclusions leave gaps) is lost' % (lo, hi, counted, 'unfiltered' if unfiltered else 'already filtered by the exclusion mask'), fh.loc(idsdef[0]))
-    reach = reaching_at_end(ring.body, 'segment_id')
+    reach = reaching_at_end(ring.body, SID)
     bad = []
     for d in reach:
         if d is ENTRY:
@@ -239,25 +280,33 @@ def ids_rules(run, db):
         elif isinstance(d, ast.For):
             bad.append('the inner loop variable of `for %s in %s` (the last NON-EXCLUDED id of the ring; a ring whose last id is excluded, or a fully excluded ring, leaves the counter too low and the next ring re-uses ids)'
                        % (ast.unparse(d.target), ast.unparse(d.iter)))
-        elif isinstance(d, ast.Assign) and ast.unparse(d.value).replace(' ', '') in ('ids[-1]', 'segment_id+len(%s)' % counted) and (ast.unparse(d.value).replace(' ', '') == 'ids[-1]' or unfiltered):
+        elif isinstance(d, ast.Assign) and ast.unparse(d.value).replace(' ', '') in ('%s[-1]' % IDS, '%s+len(%s)' % (SID, counted)) and (ast.unparse(d.value).replace(' ', '') == '%s[-1]' % IDS or unfiltered):
             continue
         else:
             bad.append('`%s`' % norm_stmt(d))
     run.check(not bad, 'C18.ids', fh.qual, 'ring-to-ring counter', 'at the end of every ring the counter is the last id of the unfiltered ring (`ids[-1]`), on every path',
               'at the end of a ring the id counter can be %s' % '; or '.join(bad), fh.loc(ring))
     # the per-segment id appended is the loop variable of the filtered (valid_ids, centers) pair
+    bp = match_all(ring.body, ['V_im = ~np.isin(%s, exclude, assume_unique=True)' % IDS, 'V_valid = %s[V_im]' % IDS, 'V_cen = V_cen[V_im]'])
     inner = [n for n in ring.body if isinstance(n, ast.For)]
-    ok = len(inner) == 1 and ast.unparse(inner[0].iter).replace(' ', '') == 'zip(valid_ids,centers)' and ast.unparse(inner[0].target).replace(' ', '') in ('segment_id,center', '(segment_id,center)')
-    filt = {ast.unparse(st.targets[0]): ast.unparse(st.value).replace(' ', '') for st in ring.body if isinstance(st, ast.Assign)}
-    ok = ok and filt.get('valid_ids') == 'ids[id_mask]' and filt.get('centers') == 'centers[id_mask]' and 'np.isin(ids,exclude' in filt.get('id_mask', '')
+    ok = bp is not None and len(inner) == 1 and ast.unparse(inner[0].iter).replace(' ', '') == 'zip(%s,%s)' % (bp['V_valid'], bp['V_cen']) \
+        and isinstance(inner[0].target, ast.Tuple) and len(inner[0].target.elts) == 2 and ast.unparse(inner[0].target.elts[0]) == SID
     run.check(ok, 'C18.ids', fh.qual, 'id/centre pairing', 'ids and centres are filtered by the same exclusion mask and walked together', 'ids and centres are no longer filtered by one mask and zipped', fh.loc(ring))
     # keystone: one counter, advanced once per segment, unconditionally
     fk = db.func(S + '_composite_keystone_aperture')
-    incs = [n for n in walk_no_nested(fk.node) if isinstance(n, ast.AugAssign) and ast.unparse(n.target) == 'segment_id']
-    ok = len(incs) == 1 and isinstance(incs[0].op, ast.Add) and ast.unparse(incs[0].value) == '1'
-    if ok:
-        loop = _innermost_loop_with(fk, 'segment_ids')
-        ok = loop is not None and incs[0] in loop.body
+    rk_ = [n for n in walk_no_nested(fk.node) if isinstance(n, ast.Return)]
+    idlist = None
+    for dnode in [n for r_ in rk_ for n in ast.walk(r_.value) if isinstance(n, ast.Dict)]:
+        for k_, v_ in zip(dnode.keys, dnode.values):
+            if isinstance(k_, ast.Constant) and k_.value == 'ids' and isinstance(v_, ast.Name):
+                idlist = v_.id
+    if idlist is None:
+        raise AnalysisError("keystone aperture: the returned dictionary has no 'ids' entry")
+    loop = _innermost_loop_with(fk, idlist)
+    apps = [a for a in _appends(loop.body) if a[0] == idlist] if loop is not None else []
+    KID = ast.unparse(apps[0][1]) if len(apps) == 1 and isinstance(apps[0][1], ast.Name) else None
+    incs = [n for n in walk_no_nested(fk.node) if isinstance(n, ast.AugAssign) and KID is not None and ast.unparse(n.target) == KID]
+    ok = len(incs) == 1 and isinstance(incs[0].op, ast.Add) and ast.unparse(incs[0].value) == '1' and loop is not None and incs[0] in loop.body
     run.check(ok, 'C18.ids', fk.qual, 'keystone counter', 'the keystone id counter advances by one per segment, unconditionally, in the per-segment loop', 'keystone id counter no longer advances once per segment', fk.loc(incs[0]) if incs else fk.loc())
 
 
@@ -436,12 +485,12 @@ def boundary_rules(run, db):
               'vertex k = centre + radius (sin, cos)(2 pi k/sides + rotation): on the circumscribed circle, equally spaced, stacked as (x, y) columns',
               'polygon vertices are (%s, %s), expected centre + radius (sin, cos)(2 pi k/sides + rotation)' % (gx.key() if gx is not None else '?', gy.key() if gy is not None else '?'), f.loc())
     f = db.func(G + '_generate_mask')
-    src = ast.unparse(f.node).replace(' ', '')
-    ok = 'truenp.stack((xx,yy),axis=2)' in src and 'spatial.Delaunay(vertices' in src and 'mask=~(triangles.find_simplex(xxyy)<0)' in src
+    ok = match_all(f.node, ['V_pts = truenp.stack((V_xx, V_yy), axis=2)', "V_tri = spatial.Delaunay(vertices, qhull_options='QJ Qf')", 'V_m = ~(V_tri.find_simplex(V_pts) < 0)', 'return V_m',
+                            'V_xx = truenp.array(x)', 'V_yy = truenp.array(y)']) is not None
     run.check(ok, 'C18.boundary', f.qual, 'point in polygon', 'samples are (x, y) pairs in the vertex order; inside == a simplex of the triangulated hull was found', 'point-in-polygon wiring changed', f.loc())
     f = db.func(G + 'regular_polygon')
-    src = ast.unparse(f.node).replace(' ', '')
-    run.check('verts=_generate_vertices(sides,radius,center,rotation)' in src and 'return_generate_mask(verts,x,y)' in src, 'C18.boundary', f.qual, 'wiring', 'regular_polygon passes (sides, radius, center, rotation) and (x, y) through', 'regular_polygon wiring changed', f.loc())
+    okw = match_all(f.node, ['V_v = _generate_vertices(sides, radius, center, rotation)', 'return _generate_mask(V_v, x, y)']) is not None
+    run.check(okw, 'C18.boundary', f.qual, 'wiring', 'regular_polygon passes (sides, radius, center, rotation) and (x, y) through', 'regular_polygon wiring changed', f.loc())
 
 
 def check(run, db, tier):
@@ -452,12 +501,54 @@ def check(run, db, tier):
     run.rule('C18.union', 'the aperture mask is written only by OR-ing the (window, mask) pair that is also recorded (plus initialisation / spider removal)')
     run.rule('C18.confine', "composed OPD passes through the segment's own mask before accumulation into its own window")
     fh = db.func(S + '_composite_hexagonal_aperture')
-    run.group(lockstep, run, fh, ['segment_ids', 'windows', 'local_coords', 'local_masks'], 'mask', 'windows', 'local_masks')
-    run.group(mask_writers, run, fh, 'mask', [('whole=', lambda v: v.startswith('np.zeros(')), ('subBitOr', None)])
     fk = db.func(S + '_composite_keystone_aperture')
-    klists = ['segment_ids', 'local_masks', 'local_coords', 'all_centers', 'windows', 'left_edges', 'right_edges', 'radial_diameters', 'idods', 'corners', 'center_angles']
-    run.group(lockstep, run, fk, klists, 'primary_mask', 'windows', 'local_masks')
-    run.group(mask_writers, run, fk, 'primary_mask', [('whole=', lambda v: v.startswith('np.zeros(')), ('subBitOr', None), ('sub=', lambda v: v == 'center_mask'), ('wholeBitAnd', lambda v: v == '~all_spiders')])
+    # the roles of the builders' local names are read off their interfaces: the position in the returned tuple that the
+    # constructor unpacks into self.<attr> (hexagonal), the key of the returned dictionaries (keystone)
+    fc = db.func(S + 'CompositeHexagonalAperture.__init__')
+    unp = [n for n in walk_no_nested(fc.node) if isinstance(n, ast.Assign) and isinstance(n.value, ast.Call) and ast.unparse(n.value.func) == '_composite_hexagonal_aperture']
+    rets = [n for n in walk_no_nested(fh.node) if isinstance(n, ast.Return)]
+    if len(unp) != 1 or len(rets) != 1 or not isinstance(rets[0].value, ast.Tuple) or not isinstance(unp[0].targets[0], ast.Tuple) or len(unp[0].targets[0].elts) != len(rets[0].value.elts):
+        raise AnalysisError('hexagonal aperture: constructor unpack / return not found or of different length')
+    hrole = {ast.unparse(t).replace('self.', ''): ast.unparse(r) for t, r in zip(unp[0].targets[0].elts, rets[0].value.elts)}
+    need = ('vtov', 'all_centers', 'windows', 'local_coords', 'local_masks', 'segment_ids', 'amp')
+    if not all(k in hrole for k in need):
+        raise AnalysisError('hexagonal aperture: the constructor does not unpack %s (got %s)' % (list(need), sorted(hrole)))
+    run.group(lockstep, run, fh, [hrole['segment_ids'], hrole['windows'], hrole['local_coords'], hrole['local_masks']], hrole['amp'], hrole['windows'], hrole['local_masks'])
+    run.group(mask_writers, run, fh, hrole['amp'], [('whole=', lambda v: v.startswith('np.zeros(')), ('subBitOr', None)])
+    rk = [n for n in walk_no_nested(fk.node) if isinstance(n, ast.Return)]
+    if len(rk) != 1:
+        raise AnalysisError('keystone aperture: single return not found')
+    krole = {}
+    for dnode in [n for n in ast.walk(rk[0].value) if isinstance(n, ast.Dict)]:
+        for k_, v_ in zip(dnode.keys, dnode.values):
+            if isinstance(k_, ast.Constant) and isinstance(v_, ast.Name):
+                krole[k_.value] = v_.id
+    for k_ in ('windows', 'masks', 'mask', 'window', 'amplitude_mask'):
+        if k_ not in krole:
+            raise AnalysisError('keystone aperture: returned dictionaries have no plain entry %r (got %s)' % (k_, sorted(krole)))
+    seg_loop = _innermost_loop_with(fk, krole['windows'])
+    klists = sorted({a[0] for a in _appends(seg_loop.body)}) if seg_loop is not None else []
+    if len(klists) < 8:
+        raise AnalysisError('keystone aperture: fewer than eight per-segment lists found (%s)' % klists)
+    run.group(lockstep, run, fk, klists, krole['amplitude_mask'], krole['windows'], krole['masks'])
+    tainted = set()
+    changed = True
+    while changed:
+        changed = False
+        for n in walk_no_nested(fk.node):
+            if isinstance(n, (ast.Assign, ast.AugAssign)):
+                v = n.value
+                hit = any((isinstance(x, ast.Call) and ast.unparse(x.func) == 'spider') or (isinstance(x, ast.Name) and x.id in tainted) for x in ast.walk(v))
+                if hit:
+                    tgts = n.targets if isinstance(n, ast.Assign) else [n.target]
+                    for t in tgts:
+                        b_ = t.value if isinstance(t, ast.Subscript) else t
+                        if isinstance(b_, ast.Name) and b_.id not in tainted and b_.id != krole['amplitude_mask']:
+                            tainted.add(b_.id)
+                            changed = True
+    inv_spiders = {'~' + x for x in tainted}
+    run.group(mask_writers, run, fk, krole['amplitude_mask'], [('whole=', lambda v: v.startswith('np.zeros(')), ('subBitOr', None), ('sub=', lambda v: v == krole['mask']),
+                                                                 ('wholeBitAnd', lambda v: v in inv_spiders)])
     # hexagonal: centre segment branch initialises all lists together
     ifs = [n for n in walk_no_nested(fh.node) if isinstance(n, ast.If) and 'exclude' in ast.unparse(n.test) and n.orelse]
     if not ifs:
@@ -468,24 +559,17 @@ def check(run, db, tier):
     la, lb = lens(ifs[0].body), lens(ifs[0].orelse)
     run.check(a == b and len(set(la.values())) == 1 and len(set(lb.values())) == 1, 'C18.lockstep', fh.qual, 'centre segment', 'both branches initialise the same lists with equal lengths',
               'the centre-segment branches initialise different lists or lengths: %s / %s' % (la, lb), fh.loc(ifs[0]))
-    # constructor unpack order == return order
-    fc = db.func(S + 'CompositeHexagonalAperture.__init__')
-    unp = [n for n in walk_no_nested(fc.node) if isinstance(n, ast.Assign) and isinstance(n.value, ast.Call) and ast.unparse(n.value.func) == '_composite_hexagonal_aperture']
-    rets = [n for n in walk_no_nested(fh.node) if isinstance(n, ast.Return)]
-    if len(unp) != 1 or len(rets) != 1:
-        raise AnalysisError('hexagonal aperture: constructor unpack / return not found')
-    tg = [ast.unparse(e).replace('self.', '') for e in unp[0].targets[0].elts]
-    rv = [ast.unparse(e) for e in rets[0].value.elts]
-    want = {'vtov': 'segment_vtov', 'all_centers': 'all_centers', 'windows': 'windows', 'local_coords': 'local_coords', 'local_masks': 'local_masks', 'segment_ids': 'segment_ids', 'amp': 'mask'}
-    run.check(len(tg) == len(rv) and all(want.get(t) == r for t, r in zip(tg, rv)), 'C18.lockstep', fc.qual, 'unpack order', 'the constructor unpacks the lists in the order they are returned',
-              'constructor unpacks %s from a function returning %s' % (tg, rv), fc.loc(unp[0]))
+    # what sits at each returned position is what its role says (the lists' contents are decided by lockstep/union above):
+    # local coordinates are the window coordinates minus the segment centre, ids are the loop's id, the centres accumulate the ring centres
+    bh = match_all(fh.node, ['%s.append((V_xx - V_c[0], V_yy - V_c[1]))' % hrole['local_coords'], '%s.append(V_sid)' % hrole['segment_ids'], 'V_xx = x[V_lw]', 'V_yy = y[V_lw]',
+                             '%s.append(V_lw)' % hrole['windows'], 'V_lw = _local_window(V_cy, V_cx, V_c, V_dx, V_sps, x, y)'])
+    okv = any(isinstance(n, ast.Assign) and isinstance(n.targets[0], ast.Name) and n.targets[0].id == hrole['vtov'] and 'segment_diameter' in ast.unparse(n.value) for n in walk_no_nested(fh.node))
+    okc = any(isinstance(n, ast.AugAssign) and isinstance(n.target, ast.Name) and n.target.id == hrole['all_centers'] and 'tolist' in ast.unparse(n.value) for n in walk_no_nested(fh.node))
+    run.check(bh is not None and okv and okc, 'C18.lockstep', fc.qual, 'unpack order', 'each position of the returned tuple holds what the constructor stores it as (vertex-to-vertex size, centres, windows, centred local coordinates, masks, ids, aperture)',
+              'the tuple returned by _composite_hexagonal_aperture is unpacked as %s, but the value at one of those positions is not what that name says' % hrole, fc.loc(unp[0]))
     fkc = db.func(S + 'CompositeKeystoneAperture.__init__')
-    src = ast.unparse(fkc.node).replace(' ', '')
-    ok = "self.segment_windows=ks['windows']" in src and "self.segment_masks=ks['masks']" in src and "self.center_mask=cs['mask']" in src and "self.center_window=cs['window']" in src
-    rk = [n for n in walk_no_nested(fk.node) if isinstance(n, ast.Return)]
-    d = ast.unparse(rk[0].value).replace(' ', '') if rk else ''
-    ok = ok and "'windows':windows" in d and "'masks':local_masks" in d and "'mask':center_mask" in d and "'window':win" in d and "'amplitude_mask':primary_mask" in d
-    run.check(ok, 'C18.lockstep', fkc.qual, 'dict wiring', 'windows/masks travel under matching keys from the builder to the object', 'keystone builder/constructor key wiring changed', fkc.loc())
+    bk = match_all(fkc.node, ["self.segment_windows = V_ks['windows']", "self.segment_masks = V_ks['masks']", "self.center_mask = V_cs['mask']", "self.center_window = V_cs['window']"])
+    run.check(bk is not None and bk['V_ks'] != bk['V_cs'], 'C18.lockstep', fkc.qual, 'dict wiring', 'windows/masks travel under matching keys from the builder to the object', 'keystone builder/constructor key wiring changed', fkc.loc())
     run.group(confine, run, db, S + 'CompositeHexagonalAperture.compose_opd', ['self.windows', 'self.local_masks'])
     run.group(confine, run, db, S + 'CompositeKeystoneAperture.compose_opd', ['self.segment_windows', 'self.segment_masks'], center='out[self.center_window]+=tile*self.center_mask')
     run.rule('C18.ids', 'segment ids: ring i is numbered after all 6(i-1)-ring ids whatever is excluded; ids and centres filtered together')
